@@ -49,6 +49,18 @@ THEOREMS = [
     "C05_candidate_text",
     "C05_float_text",
     "C05_float_as_int",
+    "spec_reads_spelling",
+    "fortran_reads_spelling",
+    "readers_agree",
+    "fortran_reads_candidate",
+    "C05_float_full",
+    "C05_token_reading",
+    "C05_token_reading_G",
+    "C05_changed_float",
+    "C05_end_to_end",
+    "C05_end_to_end_new",
+    "C05_changed_float_signed",
+    "C05_default_node",
     "C05_int_value",
     "C05_int_branch",
     "C05_trunc_ofInt",
